@@ -12,6 +12,7 @@ def main():
     count = 12000 if chk.thorough else 2500
     metas = []
     if driver_ok:
+        C.stream_header_search(chk, 12000 if chk.thorough else 3000)
         dis, metas = C.stream_check_plurals(chk, count)
     else:
         chk.broken.append({'kind': 'correspondence', 'stream': 'check-plurals', 'problem': 'driver could not be rebuilt'})
